@@ -42,7 +42,12 @@ fn demo(script: &str, seeds: u64, preempt: u32) {
             dash_c: true,
             ..Default::default()
         };
-        let o = shellrun::run_script(&spec, &cfg, Decider::record(Rng::stream(1, 0, seed)));
+        let o = shellrun::run_script_with(&spec, &cfg, Decider::record(Rng::stream(1, 0, seed)), |w| {
+            if std::env::var("DEMO_IGNORE_USR2").is_ok() {
+                use yash_env::system::Sigaction as _;
+                w.system.sigaction(yash_env::system::r#virtual::SIGUSR2, yash_env::system::Disposition::Ignore).ok();
+            }
+        }, |_, _| true);
         let key = match &o.panic {
             None => format!(
                 "main_done={} stalled={} status={}\nstdout={:?}\nstderr={:?}\nprocs={:?}",
